@@ -119,5 +119,150 @@ def check_C01(ctx):
     junk_jobs(ctx, ["Inv_C01"], ops, None)
 
 
-CHECKS = {"C01": check_C01, "C07": check_C07, "C08": check_C08}
+
+PAST = "2000-01-01 00:00:00"
+FUTURE = "2999-01-01 00:00:00"
+K = {"R": ["R", False], "P": ["P", False], "S": ["S", False], "U": ["U", False], "T": ["T", False], "F": ["F", False],
+     "Ru": ["R", True], "Pu": ["P", True], "Tu": ["T", True], "Su": ["S", True]}
+
+
+def lines_gen(L, D, E, kinds, unit="  ", base=0, free=(), ws=(), blank=True, suffix="", simulate=None):
+    from vlib import TlaSet
+    g = {"base": "GenLines", "constraint": "Feasible",
+         "consts": {"L": L, "D": D, "E": E, "Kinds": TlaSet([K[k] for k in kinds]), "Unit": Chars(unit), "Base": base,
+                    "FreeInd": TlaSet(list(free)), "WsLens": TlaSet(list(ws)), "Blank": blank, "Suffix": Chars(suffix),
+                    "PastTo": Chars(PAST), "FutureTo": Chars(FUTURE)}}
+    if simulate:
+        g["simulate"] = simulate
+    return g
+
+
+def has_ready(b):
+    """non-trivial: something was removed (clean output differs from the source) or something is listed"""
+    for e in b.get("events", []):
+        if e.get("ev") == "Return":
+            if "items" in e:
+                if e["items"]:
+                    return True
+            elif e.get("out") != b.get("src"):
+                return True
+    return False
+
+
+LIST_OPS = [{"op": "clean"}, {"op": "list_json"}, {"op": "list"}, {"op": "list_all_json"}, {"op": "list_all"}]
+
+
+def block_jobs(ctx, invariants, ops, cfgs=None):
+    q = ctx.quick
+    cfg = {"ds": "<", "de": ">"}
+    sets = [
+        ("block-mixed", [lines_gen(6 if q else 7, 2, 2 if q else 3, ["R", "P", "S", "U"], ws=(2,))]),
+        ("block-one", [lines_gen(7 if q else 9, 1, 1, ["R"], base=0, ws=(1,)),
+                       lines_gen(7 if q else 9, 1, 1, ["R"], base=1, ws=(1,))]),
+        ("block-two", [lines_gen(8 if q else 10, 1, 2, ["R"], base=0, ws=()),
+                       lines_gen(7 if q else 9, 2, 2, ["R", "P"], base=1, ws=())]),
+        ("block-tab-mb", [lines_gen(6 if q else 7, 2, 2, ["R", "P"], unit="\t", base=1, ws=(1,)),
+                          lines_gen(6 if q else 7, 2, 2, ["T", "F"], unit="    ", base=0, suffix="é")]),
+        ("block-sim", [lines_gen(14, 3, 5, ["R", "P", "S", "U", "T", "F"], ws=(2,), base=ctx.seed % 2,
+                                 simulate=(100 if q else 20000, 14))]),
+    ]
+    for (name, gens) in sets:
+        ctx.job(name, gens=gens, invariants=invariants, ops=ops, cfg=cfg, nontrivial=has_ready)
+    # the same family under a long, space-containing delimiter pair
+    ctx.job("block-html", gens=[lines_gen(6 if q else 7, 2, 2, ["R", "P", "T"], ws=(2,))], invariants=invariants, ops=ops,
+            cfg={"ds": "<!-- <", "de": "> -->"}, nontrivial=has_ready)
+
+
+def unwrap_jobs(ctx, invariants, ops):
+    q = ctx.quick
+    cfg = {"ds": "<", "de": ">"}
+    sets = [
+        ("unwrap-one", [lines_gen(8, 1, 1, ["Ru"], free=(1,), blank=True),
+                        lines_gen(7, 1, 1, ["Ru"], free=(0, 2), blank=False)] if q else
+                       [lines_gen(8, 1, 1, ["Ru"], free=(0, 1, 2), blank=True), lines_gen(10, 1, 1, ["Ru"], free=(1,), blank=True)]),
+        ("unwrap-mixed", [lines_gen(7 if q else 8, 2, 2, ["Ru", "R", "P"], free=(1,), blank=False)]),
+        ("unwrap-nested", [lines_gen(10 if q else 12, 2, 2, ["Ru"], blank=False),
+                           lines_gen(9 if q else 11, 2, 2, ["Ru", "Pu"], base=1, blank=False)]),
+        ("unwrap-tab", [lines_gen(7 if q else 8, 1, 1, ["Tu"], unit="\t", free=(0, 2) if q else (0, 1, 2), blank=False, suffix="あ")]),
+        ("unwrap-sim", [lines_gen(16, 3, 4, ["Ru", "R", "P", "Pu", "S"], free=(0, 1, 2), ws=(2,),
+                                  simulate=(100 if q else 20000, 16))]),
+    ]
+    for (name, gens) in sets:
+        ctx.job(name, gens=gens, invariants=invariants, ops=ops, cfg=cfg, nontrivial=has_ready)
+
+
+def inline_jobs(ctx, invariants, ops):
+    q = ctx.quick
+    for (ds, de) in [("<", ">"), ("/* <", "> */")]:
+        atoms = [ds + "rm name='a'" + de, ds + "rm name='b'" + de, ds + "/rm" + de, "x", "y;", "\n", "  ", "é"]
+        ctx.job("inline[%s|%s]" % (ds, de),
+                gens=[{"base": "GenAtoms", "consts": {"Atoms": [Chars(a) for a in atoms], "N": 5 if q else 6}}],
+                invariants=invariants, ops=ops, cfg={"ds": ds, "de": de}, nontrivial=has_ready)
+
+
+def check_C02(ctx):
+    block_jobs(ctx, ["Inv_C02"], [{"op": "clean"}])
+    unwrap_jobs(ctx, ["Inv_C02"], [{"op": "clean"}])
+    inline_jobs(ctx, ["Inv_C02"], [{"op": "clean"}])
+    junk_jobs(ctx, ["Inv_C02"], [{"op": "clean"}], has_ready)
+
+
+def check_C03(ctx):
+    block_jobs(ctx, ["Inv_C03"], [{"op": "clean"}])
+    unwrap_jobs(ctx, ["Inv_C03"], [{"op": "clean"}])
+    inline_jobs(ctx, ["Inv_C03"], [{"op": "clean"}])
+    junk_jobs(ctx, ["Inv_C03"], [{"op": "clean"}], has_ready)
+
+
+def check_C04(ctx):
+    block_jobs(ctx, ["Inv_C04"], [{"op": "clean"}])
+    unwrap_jobs(ctx, ["Inv_C04"], [{"op": "clean"}])
+    inline_jobs(ctx, ["Inv_C04"], [{"op": "clean"}])
+    chars_jobs(ctx, ["Inv_C04"], [{"op": "clean"}], None, pairs_quick=2)
+    junk_jobs(ctx, ["Inv_C04"], [{"op": "clean"}], None)
+
+
+def check_C11(ctx):
+    unwrap_jobs(ctx, ["Inv_C11"], [{"op": "clean"}])
+
+
+def check_C12(ctx):
+    unwrap_jobs(ctx, ["Inv_C12"], [{"op": "clean"}])
+
+
+def check_C13(ctx):
+    block_jobs(ctx, ["Inv_C13"], [{"op": "clean"}])
+
+
+def check_C14(ctx):
+    block_jobs(ctx, ["Inv_C14"], [{"op": "clean"}])
+    unwrap_jobs(ctx, ["Inv_C14"], [{"op": "clean"}])
+    inline_jobs(ctx, ["Inv_C14"], [{"op": "clean"}])
+
+
+def check_C15(ctx):
+    ops = [{"op": "clean"}, {"op": "list_json"}, {"op": "list"}, {"op": "list_json"}]
+    block_jobs(ctx, ["Inv_C15"], ops)
+    unwrap_jobs(ctx, ["Inv_C15"], ops)
+    inline_jobs(ctx, ["Inv_C15"], ops)
+
+
+def check_C16(ctx):
+    ops = [{"op": "list_json"}, {"op": "list"}, {"op": "list_all_json"}, {"op": "list_all"}]
+    block_jobs(ctx, ["Inv_C16"], ops)
+    unwrap_jobs(ctx, ["Inv_C16"], ops)
+    inline_jobs(ctx, ["Inv_C16"], ops)
+
+
+def check_C17(ctx):
+    ops = [{"op": "list_json"}, {"op": "list_all_json"}]
+    block_jobs(ctx, ["Inv_C17"], ops)
+    unwrap_jobs(ctx, ["Inv_C17"], ops)
+    ctx.job("pending-many", gens=[lines_gen(9 if ctx.quick else 11, 2, 4, ["R", "P"], blank=False)],
+            invariants=["Inv_C17"], ops=ops, cfg={"ds": "<", "de": ">"}, nontrivial=has_ready)
+
+
+CHECKS = {"C01": check_C01, "C02": check_C02, "C03": check_C03, "C04": check_C04, "C07": check_C07, "C08": check_C08,
+          "C11": check_C11, "C12": check_C12, "C13": check_C13, "C14": check_C14, "C15": check_C15, "C16": check_C16,
+          "C17": check_C17}
 NEEDS_CLI = {"C05", "C06", "C20", "C01"}
